@@ -13,6 +13,7 @@
      E. buildSortInfo (sort_keys / sort_info): sort_info_consistent, C13_errors
      F. C13_orderby
      G. $sort without comparator (lib_sort default paths) and with comparator
+     H. C13_eval_sort: the evaluator's sort node is sort_info + sorted_items, so F applies
    Axiom-free (see the Print Assumptions at the end of each part). *)
 From Coq Require Import List Bool Arith ZArith Lia Sorting.Permutation Sorting.Sorted.
 From Coq Require Import Ascii String.
